@@ -4,14 +4,14 @@
 
 use serde_json::{json, Value};
 
-pub const N_TYPES: usize = 6;
+pub const N_TYPES: usize = 12;
 
 #[derive(Clone, Debug, PartialEq, Eq)]
 pub struct FnDecl {
     /// bit k set = declares shared access to data type k
-    pub reads: u8,
+    pub reads: u16,
     /// bit k set = declares exclusive access to data type k
-    pub writes: u8,
+    pub writes: u16,
 }
 
 #[derive(Clone, Copy, Debug, PartialEq, Eq)]
@@ -409,7 +409,7 @@ pub fn schedule_from_json(v: &Value) -> Option<Vec<Step>> {
     Some(out)
 }
 
-fn types_to_json(mask: u8) -> Value {
+fn types_to_json(mask: u16) -> Value {
     Value::Array(
         (0..N_TYPES)
             .filter(|k| mask & (1 << k) != 0)
@@ -418,8 +418,8 @@ fn types_to_json(mask: u8) -> Value {
     )
 }
 
-fn types_from_json(v: &Value) -> Option<u8> {
-    let mut m = 0u8;
+fn types_from_json(v: &Value) -> Option<u16> {
+    let mut m = 0u16;
     for t in v.as_array()? {
         let s = t.as_str()?;
         let k: usize = s.strip_prefix('T')?.parse().ok()?;
